@@ -4,6 +4,8 @@ import (
 	"fmt"
 	"math/rand"
 	"strings"
+	"sync"
+	"sync/atomic"
 	"time"
 
 	"github.com/element-of-surprise/coercion/workflow/storage/sqlite"
@@ -385,51 +387,65 @@ func exploreCrashes(ps *spec.Plan, r *rand.Rand, secondOneIn int, res *CaseResul
 		return nil
 	}
 	const watchdog = 15 * time.Second
-	hangs := 0
-	for k := 0; k <= cp.NW; k++ {
-		second := r.Intn(secondOneIn) == 0
+	// the crash points of one plan are independent executions (own store, log, registry each): a few
+	// workers run them concurrently; everything that touches res or the visitor is under mu
+	var mu sync.Mutex
+	var hangs atomic.Int32
+	seconds := make([]bool, cp.NW+1)
+	for k := range seconds {
+		seconds[k] = r.Intn(secondOneIn) == 0
+	}
+	doK := func(k int) {
+		if hangs.Load() >= 3 {
+			return
+		}
+		second := seconds[k]
 		var cap2 *sqlite.CaptureStmts
 		if second {
 			cap2 = &sqlite.CaptureStmts{}
 		}
 		rs, err := crash.Restore([]crash.Layer{{Cap: cp.Cap, K: k}}, cap2)
 		if err != nil {
-			res.Verdict = "inconclusive"
-			res.Note = "restore: " + err.Error()
-			return cp
+			mu.Lock()
+			res.Verdict, res.Note = "inconclusive", "restore: "+err.Error()
+			mu.Unlock()
+			return
 		}
 		sk, err := rs.Snapshot(cp.ID)
 		if err != nil {
-			res.Verdict = "inconclusive"
-			res.Note = "snapshot: " + err.Error()
-			return cp
+			mu.Lock()
+			res.Verdict, res.Note = "inconclusive", "snapshot: "+err.Error()
+			mu.Unlock()
+			return
 		}
+		mu.Lock()
 		res.Counters["crash_points"]++
 		res.Counters["sk_plan_"+stName(sk.Status("P"))]++
+		mu.Unlock()
 		if sk.Status("P") != spec.Running {
 			// nothing to resume (C11 decides that such plans are left untouched)
 			if isTerminal(sk.Status("P")) {
+				mu.Lock()
 				visit(sk, nil, nil, false, k, -1)
+				mu.Unlock()
 			}
-			continue
+			return
 		}
 		rec := rs.Recover(cp.ID, watchdog)
-		res.Events += len(rec.Events)
 		t := oracle.Project(rec.Events, cp.ID.String(), -1)
+		mu.Lock()
+		res.Events += len(rec.Events)
 		visit(sk, rec, t, false, k, -1)
+		mu.Unlock()
 		if !rec.Returned {
-			hangs++
-			if hangs >= 3 {
-				res.Note = "stopped after 3 hangs"
-				return cp
-			}
-			continue
+			hangs.Add(1)
+			return
 		}
 		if !second {
-			continue
+			return
 		}
 		n2 := cap2.Len()
-		for j := 0; j < n2; j++ {
+		for j := 0; j < n2 && hangs.Load() < 3; j++ {
 			rs2, err := crash.Restore([]crash.Layer{{Cap: cp.Cap, K: k}, {Cap: cap2, K: j}}, nil)
 			if err != nil {
 				continue
@@ -440,22 +456,42 @@ func exploreCrashes(ps *spec.Plan, r *rand.Rand, secondOneIn int, res *CaseResul
 			}
 			if sk2.Status("P") != spec.Running {
 				if isTerminal(sk2.Status("P")) {
+					mu.Lock()
 					visit(sk2, nil, nil, true, k, j)
+					mu.Unlock()
 				}
 				continue
 			}
-			res.Counters["second_crash_points"]++
 			rec2 := rs2.Recover(cp.ID, watchdog)
-			res.Events += len(rec2.Events)
 			t2 := oracle.Project(rec2.Events, cp.ID.String(), -1)
+			mu.Lock()
+			res.Counters["second_crash_points"]++
+			res.Events += len(rec2.Events)
 			visit(sk2, rec2, t2, true, k, j)
+			mu.Unlock()
 			if !rec2.Returned {
-				hangs++
-				if hangs >= 3 {
-					return cp
-				}
+				hangs.Add(1)
 			}
 		}
+	}
+	ks := make(chan int)
+	var wg sync.WaitGroup
+	for w := 0; w < 4; w++ {
+		wg.Add(1)
+		go func() {
+			defer wg.Done()
+			for k := range ks {
+				doK(k)
+			}
+		}()
+	}
+	for k := 0; k <= cp.NW; k++ {
+		ks <- k
+	}
+	close(ks)
+	wg.Wait()
+	if hangs.Load() >= 3 {
+		res.Note = "stopped after 3 hangs"
 	}
 	return cp
 }
@@ -463,7 +499,7 @@ func exploreCrashes(ps *spec.Plan, r *rand.Rand, secondOneIn int, res *CaseResul
 func c09Run(c *Ctx, idx int) CaseResult {
 	res := CaseResult{Counters: map[string]int{}}
 	ps, src := crashPlanOf("C09", c.Seed, c.Tier, idx)
-	r := gen.Rand(c.Seed, "C09x", idx)
+	r := gen.Rand(c.Seed, "crashx", idx)
 	var first []any
 	cp := exploreCrashes(&ps, r, secondOneIn(c.Tier), &res, func(sk *spec.PlanView, rec *crash.Recovery, t *oracle.Trace, second bool, k, j int) {
 		if rec == nil {
@@ -501,7 +537,7 @@ func c09Run(c *Ctx, idx int) CaseResult {
 func c10Run(c *Ctx, idx int) CaseResult {
 	res := CaseResult{Counters: map[string]int{}}
 	ps, src := crashPlanOf("C10", c.Seed, c.Tier, idx)
-	r := gen.Rand(c.Seed, "C10x", idx)
+	r := gen.Rand(c.Seed, "crashx", idx)
 	compare := !hasFailingCont(&ps)
 	var cpRef *crash.Captured
 	var first []any
@@ -579,9 +615,9 @@ func secondOneIn(tier string) int {
 func init() {
 	crashRule := "case i = one plan and EVERY prefix k of its committed write sequence (captured with sqlite.WithCapture during an uninterrupted run, replayed into a fresh in-memory store, then a normal Workstream recovers); a PRNG share of the crash points (quick 1/30, thorough 1/10) is followed by every second crash during recovery; quick: 12 PRNG samples of the bounded box + 6 random plans; thorough: the whole box (1272 shapes blocks<=2 x sequences<=2 x actions<=2 x outcome masks x tolerance{0,1} x concurrency{1,2}, plus 486 = every subset x pass/fail of the five check groups at plan and block level) + 300 random plans; plugin outcomes are a function of the action alone; distinct by plan spec"
 	register(&Prop{
-		ID: "C09", Level: "fault_enumeration", Batch: 2, PerCaseTimeout: 300 * time.Second,
+		ID: "C09", Level: "fault_enumeration", Batch: 1, PerCaseTimeout: 300 * time.Second,
 		Rule: crashRule + "; non-trivial = the plan has at least one crash point with a durable action result", Cases: crashCases,
-		Run: c09Run, RaceAttr: raceHas("sm.fix", "sm.(*States).fix", "sm.(*States).Recovery"), MinNontrivial: 20,
+		Run: c09Run, RaceAttr: raceHas("sm.fix", "sm.(*States).fix", "sm.(*States).Recovery"), MinNontrivial: 10,
 		Finish: func(tier string, counters map[string]int, cov map[string]any) string {
 			if counters["crash_points_with_durable_results"] == 0 {
 				return "no crash point with a durable action result was explored"
@@ -591,9 +627,9 @@ func init() {
 		Assumptions: []string{"crash = process death: the durable state after a crash is a prefix of the committed write sequence (each update is its own auto-commit)", "sqlite only (the cosmosdb fake has no crash semantics)"},
 	})
 	register(&Prop{
-		ID: "C10", Level: "fault_enumeration", Batch: 2, PerCaseTimeout: 300 * time.Second,
+		ID: "C10", Level: "fault_enumeration", Batch: 1, PerCaseTimeout: 300 * time.Second,
 		Rule: crashRule + "; outcome equality is applied when no continuous check is scripted to fail and an 18-line evaluator of the scripts agrees with the uninterrupted run", Cases: crashCases,
-		Run: c10Run, RaceAttr: raceHas("sm.fix", "sm.(*States).fix", "sm.(*States).Recovery"), MinNontrivial: 20,
+		Run: c10Run, RaceAttr: raceHas("sm.fix", "sm.(*States).fix", "sm.(*States).Recovery"), MinNontrivial: 10,
 		Finish: func(tier string, counters map[string]int, cov map[string]any) string {
 			if counters["recoveries"] == 0 {
 				return "no recovery was observed"
